@@ -17,8 +17,9 @@
 //
 //	S served                                  number of stream bytes served by the end
 //	R index call offset len                   every Read of the source, in order
-//	H call consumer size offset hex           a secret handed out by call #call; offset -1 = not in the stream
-//	N call consumer size offset hex           session id (offset -1 if it is not from the stream); not one of the four secrets
+//	H call consumer size offset hex pieces    a secret handed out by call #call; offset -1 = not a slice of the stream;
+//	                                          pieces = the value cut into maximal runs found in the stream (off:len,...) or "-"
+//	N call consumer size offset hex pieces    session id (offset -1 if it is not from the stream); not one of the four secrets
 //	P call consumer reads                     padding draw: only the Reads it caused can be observed (the bytes are encrypted)
 //
 // consumer = nonce | new_nonce | dh_b | srp_a.  For dh_b the value is the exponent b left-padded to 256
@@ -99,6 +100,37 @@ func (r *recorder) locate(v []byte) int {
 	return off
 }
 
+// pieces: v cut greedily into maximal runs (of at least 8 bytes) that occur in the served stream,
+// "off:len,off:len,..."; "-" if some part of v is not there.  One piece = v is a slice of the stream.
+func (r *recorder) pieces(v []byte) string {
+	out := ""
+	for len(v) > 0 {
+		if len(v) < 8 {
+			return "-"
+		}
+		off, ok := r.index[binary.BigEndian.Uint64(v)]
+		if !ok || off+8 > r.pos {
+			return "-"
+		}
+		n := 8
+		for n < len(v) && off+n < r.pos && r.stream[off+n] == v[n] {
+			n++
+		}
+		if len(v)-n > 0 && len(v)-n < 8 { // keep the last piece long enough to be located
+			n = len(v) - 8
+			if n < 8 {
+				return "-"
+			}
+		}
+		if out != "" {
+			out += ","
+		}
+		out += fmt.Sprintf("%d:%d", off, n)
+		v = v[n:]
+	}
+	return out
+}
+
 func pad(b *big.Int, n int) []byte { return b.FillBytes(make([]byte, n)) }
 
 func fresh(seed int64, srpCalls int, out string) {
@@ -112,7 +144,7 @@ func fresh(seed int64, srpCalls int, out string) {
 	defer f.Close()
 	next := func() int { rec.call++; return rec.call }
 	hand := func(tag, consumer string, call int, v []byte) {
-		fmt.Fprintf(f, "%s\t%d\t%s\t%d\t%d\t%s\n", tag, call, consumer, len(v), rec.locate(v), hex.EncodeToString(v))
+		fmt.Fprintf(f, "%s\t%d\t%s\t%d\t%d\t%s\t%s\n", tag, call, consumer, len(v), rec.locate(v), hex.EncodeToString(v), rec.pieces(v))
 	}
 	nonce := func() { c := next(); hand("H", "nonce", c, pad(tl.RandomInt128().Int, 16)) }
 	newNonce := func() { c := next(); hand("H", "new_nonce", c, pad(tl.RandomInt256().Int, 32)) }
@@ -175,7 +207,7 @@ func fresh(seed int64, srpCalls int, out string) {
 				}
 			}
 		}
-		fmt.Fprintf(f, "H\t%d\tsrp_a\t256\t-1\tA=%s\n", c, hex.EncodeToString(o.A))
+		fmt.Fprintf(f, "H\t%d\tsrp_a\t256\t-1\tA=%s\t-\n", c, hex.EncodeToString(o.A))
 	}
 
 	for i := 0; i < 48; i++ { // phase 1
